@@ -13,8 +13,9 @@ import (
 
 // Col is one value column of a bucket schema.
 type Col struct {
-	Name string
-	Typ  string // i1 i2 i4 i8 u1 u2 u4 u8 f4 f8
+	Name  string
+	Typ   string // i1 i2 i4 i8 u1 u2 u4 u8 f4 f8
+	Const bool   // padding column: the same value in every record (compressible)
 }
 
 // Bucket describes one time bucket as the client sees it.
@@ -73,6 +74,15 @@ func ColVal(id int64, j int, typ string, isID bool) interface{} {
 		return float64(b) + 0.25
 	}
 	panic("harness: unknown column type " + typ)
+}
+
+// bucketColVal is the value column j of bucket b holds for record id.
+func bucketColVal(b *Bucket, id int64, j, idc int) interface{} {
+	c := b.Cols[j]
+	if c.Const {
+		return Convert(int64(0), c.Typ)
+	}
+	return ColVal(id, j, c.Typ, j == idc)
 }
 
 func newSlice(typ string) interface{} {
@@ -285,10 +295,9 @@ func (bw *BucketWrite) buildCS() *io.ColumnSeries {
 		for _, r := range bw.Recs {
 			var v interface{}
 			if src[j] >= 0 {
-				bc := bw.B.Cols[src[j]]
 				// the value the client means: derived in the *bucket* column's
 				// terms, then expressed in the type the client sends
-				v = Convert(ColVal(r.ID, src[j], bc.Typ, src[j] == idc), c.Typ)
+				v = Convert(bucketColVal(bw.B, r.ID, src[j], idc), c.Typ)
 			} else {
 				v = Convert(int64(7), c.Typ)
 			}
